@@ -17,7 +17,7 @@ import (
 )
 
 type vxC05Sym struct {
-	Kind  string `json:"kind"`  // cycle | noread (cycle during which every read of the PWM file fails) | mode | pwm | pwmrel | mid
+	Kind  string `json:"kind"`  // cycle | stall (cycle with the fan reporting 0 RPM) | noread (cycle during which every read of the PWM file fails) | mode | pwm | pwmrel | mid
 	Curve int    `json:"curve"` // cycle / mid
 	Val   int    `json:"val"`   // mode value / pwm value / relative offset
 	Op    int    `json:"op"`    // mid: inject before the op-th file operation of the cycle
@@ -30,6 +30,8 @@ func (s vxC05Sym) String() string {
 		return fmt.Sprintf("cycle(curve=%d)", s.Curve)
 	case "noread":
 		return fmt.Sprintf("cycle(curve=%d) while reads of the PWM file fail", s.Curve)
+	case "stall":
+		return fmt.Sprintf("cycle(curve=%d) with the fan reporting 0 RPM", s.Curve)
 	case "mode":
 		return fmt.Sprintf("3rd-party mode:=%d", s.Val)
 	case "pwm":
@@ -144,9 +146,16 @@ func vxC05Apply(fx *vxFix, h *vxC05Hist, s vxC05Sym, trail func() []vxC05Sym) (v
 			return nil
 		}
 	}
-	o := fx.vxCycle(vxSym{Curve: s.Curve, Rpm: 1000, DtMs: 200})
+	rpm := 1000
+	if s.Kind == "stall" {
+		rpm = 0
+	}
+	o := fx.vxCycle(vxSym{Curve: s.Curve, Rpm: rpm, DtMs: 200})
 	fx.fs.Intercept = nil
 	h.Cycles++
+	if o.Stalled {
+		return // stalled at maximum: regulation of this fan ends (C10)
+	}
 	if o.Panic != "" || o.Err != nil {
 		bad("C05 cycle failed", fmt.Sprintf("panic=%q err=%v", o.Panic, o.Err))
 		return
@@ -195,6 +204,10 @@ func vxC05Alphabet(cfg vxCfg) []vxC05Sym {
 	}
 	for _, m := range []int{0, 2, 3} {
 		a = append(a, vxC05Sym{Kind: "mode", Val: m})
+	}
+	// the fan stands still (never-stop handling raises the minimum in the same cycle that may count an interference)
+	if cfg.NeverStop && !cfg.NoRpm {
+		a = append(a, vxC05Sym{Kind: "stall", Curve: 100})
 	}
 	// the PWM file cannot be read during the cycle (flaky bus): the interference must still be undone (writes succeed)
 	a = append(a, vxC05Sym{Kind: "noread", Curve: 100}, vxC05Sym{Kind: "noread", Curve: 255})
@@ -267,6 +280,8 @@ func TestVX_C05(t *testing.T) {
 			cfgs = append(cfgs, vxCfg{Kind: "hwmon", NeverStop: true, Min: 50, Max: 200, Map: mp, Algo: algo, StartPwm: 0, StartMode: 1})
 		}
 		cfgs = append(cfgs, vxCfg{Kind: "hwmon", Min: -1, Max: -1, Map: mp, Algo: "direct", StartPwm: 77, NoEnable: true})
+		// PWM-only header: no tach input
+		cfgs = append(cfgs, vxCfg{Kind: "hwmon", Min: -1, Max: -1, Map: mp, Algo: "direct", StartPwm: 77, StartMode: 2, NoRpm: true})
 		cfgs = append(cfgs, vxCfg{Kind: "file", Min: -1, Max: -1, Map: mp, Algo: "direct", StartPwm: 77})
 	}
 	deadline := mc.Deadline(45*time.Second, 12*time.Minute)
